@@ -231,6 +231,16 @@ func (m *M) step() error {
 // identical is the identity notion of path tracking: same container, or equal
 // scalar. Numerically equal numbers of different Go representation are not
 // decided by the model.
+// distinctButEqual: a container that equals the one at the current location but lives at another address may be the
+// location itself handed back by a builtin that had nothing to change (`del(.nokey)`, `. + []`): whether a builtin
+// returns its input or a copy is not specified, so the reference interpreter does not decide such cases.
+func distinctButEqual(a, b any) error {
+	if !ContainsOpaque(a) && !ContainsOpaque(b) && !hasNaN(a) && !hasNaN(b) && Cmp(a, b) == 0 {
+		return unsup("an equal container at a different address in a path expression")
+	}
+	return nil
+}
+
 func identical(a, b any) (bool, error) {
 	switch x := a.(type) {
 	case nil:
@@ -251,13 +261,19 @@ func identical(a, b any) (bool, error) {
 		if !ok {
 			return false, nil
 		}
-		return reflect.ValueOf(x).Pointer() == reflect.ValueOf(y).Pointer() && len(x) == len(y), nil
+		if reflect.ValueOf(x).Pointer() == reflect.ValueOf(y).Pointer() && len(x) == len(y) {
+			return true, nil
+		}
+		return false, distinctButEqual(a, b)
 	case map[string]any:
 		y, ok := b.(map[string]any)
 		if !ok {
 			return false, nil
 		}
-		return reflect.ValueOf(x).Pointer() == reflect.ValueOf(y).Pointer() && len(x) == len(y), nil
+		if reflect.ValueOf(x).Pointer() == reflect.ValueOf(y).Pointer() && len(x) == len(y) {
+			return true, nil
+		}
+		return false, distinctButEqual(a, b)
 	}
 	if IsNum(a) {
 		if !IsNum(b) {
@@ -1280,6 +1296,9 @@ func (m *M) callBuiltin(name string, args []*gojq.Query, e *env, in PV, emit fun
 		return &HaltErr{in.V, 5}
 	case "halt_error/1":
 		return m.eval(args[0], e, valueMode(in), func(w PV) error {
+			if f, isF := w.V.(float64); isF && (math.IsInf(f, 0) || math.IsNaN(f) || f != math.Trunc(f) || math.Abs(f) > 1e9) {
+				return unsup("halt_error with a non-integral or huge exit code")
+			}
 			c, ok, err := idxInt(w.V)
 			if err != nil || !ok {
 				return ierr("halt_error needs a number")
